@@ -22,7 +22,7 @@ func c05(c *q.Ctx) {
 		{Name: "balance cache", Dirty: []string{"UtxoVM.AddBalance", "UtxoVM.SubBalance"}, Clean: []string{"UtxoVM.ClearBalanceCache"}},
 		{Name: "utxo cache", Dirty: []string{"UtxoCache.Insert", "CacheFiller.Commit"}, CleanStores: []string{"UtxoVM.UtxoCache"}},
 		{Name: "total supply", Dirty: []string{"UtxoVM.UpdateUtxoTotal"}, Clean: []string{"UtxoVM.ReloadTotal"}},
-		{Name: "header cache", Dirty: []string{"LRUCache.Add@*.blkHeaderCache"}, DirtyStores: []string{"InternalBlock.InTrunk@ledger.(*Ledger).fetchBlock(*", "InternalBlock.NextHash@ledger.(*Ledger).fetchBlock(*", "InternalBlock.InTrunk@phi{ledger.(*Ledger).fetchBlock(*", "InternalBlock.NextHash@phi{ledger.(*Ledger).fetchBlock(*"}},
+		{Name: "header cache", Dirty: []string{"LRUCache.Add@*.blkHeaderCache"}, DirtyStores: []string{"InternalBlock.InTrunk@ledger.(*Ledger).fetchBlock(*", "InternalBlock.NextHash@ledger.(*Ledger).fetchBlock(*", "InternalBlock.InTrunk@phi{ledger.(*Ledger).fetchBlock(*", "InternalBlock.NextHash@phi{ledger.(*Ledger).fetchBlock(*"}, Clean: []string{"Ledger.purgeHeaderCache"}},
 	}
 	infallible := map[string]string{
 		"UtxoItem.Dumps":                                 "JSON of {*big.Int,int64} cannot fail",
@@ -52,6 +52,8 @@ func c05(c *q.Ctx) {
 		}
 		return true, true
 	}
+	// ConfirmBlock's deferred purge tests the status it returns: `!confirmStatus.Succ`
+	k9.FailGuard = func(g q.Cond) bool { return g.Canon == "local<ConfirmStatus>.Succ" && !g.Sense }
 	coinbaseNever := "coinbase transactions never reach the pool path: DoTx rejects them and recoverUnconfirmedTx skips them, so UpdateUtxoTotal is not executed here"
 	k9.Operation(led+"(*Ledger).ConfirmBlock", nil)
 	k9.Operation(led+"(*Ledger).Truncate", nil)
